@@ -95,6 +95,9 @@ def make(cls, data, *, rate_name="1Hz", start_name="none", fc=400 * u.MHz, chan_
     st = start(start_name) if isinstance(start_time, str) else start_time
     C = getattr(pb, cls)
     kw = dict(sample_rate=sr, start_time=st, meta=meta)
+    # strings built at run time (not interned literals): equality, not identity, must decide
+    align = "".join(list(align)) if isinstance(align, str) else align
+    pol_type = "".join(list(pol_type)) if isinstance(pol_type, str) else pol_type
     if cls != "Signal":
         kw.update(center_freq=fc, freq_align=align)
     if cls in ("RadioSignal", "IntensitySignal", "FullStokesSignal"):
